@@ -207,7 +207,9 @@ void sj_cow(const vh::Case& c, Failure& F, int reps) {
             switch (op.code % 4) {
                 case 0: { auto h = g.lock(); h->push_back(t); commits++; break; }
                 case 1: { auto h = g.lock(); h->push_back(t); h.cancel(); break; }
-                case 2: { auto s = g.lock_shared(); size_t n = s->size(); jitter(op.a); if (s->size() != n) F.report("snapshot-changed", "cow snapshot changed"); if (kept.size() < 4) kept.push_back(s); break; }
+                case 2: { auto s = (op.a % 4 == 0) ? g.lock_shared() : (op.a % 4 == 1) ? g.try_lock_shared() : (op.a % 4 == 2) ? g.try_lock_shared_for(std::chrono::microseconds(10)) : g.try_lock_shared_until(std::chrono::steady_clock::now() + std::chrono::microseconds(10));
+                          if (!s) { F.report("null-handle", "cow shared acquisition returned null"); break; }
+                          size_t n = s->size(); jitter(op.a); if (s->size() != n) F.report("snapshot-changed", "cow snapshot changed"); if (kept.size() < 4) kept.push_back(s); break; }
                 default: { for (auto& s : kept) { long x = 0; for (int v : *s) x += v; (void)x; } kept.clear(); break; }
             }
         }
@@ -263,6 +265,26 @@ void sj_atomic(const vh::Case& c, Failure& F, int reps) {
                 case 2: { std::string old = g.exchange(mine); if (old.size() < 20) F.report("torn", "exchange returned a torn string"); break; }
                 case 3: { std::string e = g.load(); g.compare_exchange(e, mine); break; }
                 default: g = mine; break;
+            }
+        }
+    });
+}
+
+// a small trivially copyable payload: libraries sometimes special-case such types (lock-free fast paths)
+struct Pod16 { uint64_t a, b; bool operator==(const Pod16& o) const { return a == o.a && b == o.b; } };
+void sj_atomic_pod(const vh::Case& c, Failure& F, int reps) {
+    lg::atomic_guarded<Pod16> g(Pod16{0, 0});
+    run_threads((int)c.fibers.size(), [&](int t) {
+        uint64_t mine = (uint64_t)(t + 1) << 32;
+        for (int r = 0; r < reps * 4; ++r) for (auto& op : c.fibers[(size_t)t]) {
+            jitter(op.b & 1);
+            ++mine;
+            switch (op.code % 5) {
+                case 0: { Pod16 v = g.load(); if (v.a != v.b) F.report("torn", "atomic_guarded load returned a partially written value"); break; }
+                case 1: g.store(Pod16{mine, mine}); break;
+                case 2: { Pod16 old = g.exchange(Pod16{mine, mine}); if (old.a != old.b) F.report("torn", "exchange returned a partially written value"); break; }
+                case 3: { Pod16 e = g.load(); if (e.a != e.b) F.report("torn", "load returned a partially written value"); g.compare_exchange(e, Pod16{mine, mine}); if (e.a != e.b) F.report("torn", "compare_exchange reported a partially written value"); break; }
+                default: { Pod16 v = static_cast<Pod16>(g); if (v.a != v.b) F.report("torn", "conversion returned a partially written value"); g = Pod16{mine, mine}; break; }
             }
         }
     });
@@ -423,7 +445,7 @@ vh::Outcome run_rt(const vh::Case& c0, int only_subject) {
         case SJ_COW: sj_cow(c, F, reps); break;
         case SJ_DEFERRED: sj_deferred(c, F, reps); break;
         case SJ_RCU: sj_rcu(c, F, reps); break;
-        case SJ_ATOMIC: sj_atomic(c, F, reps); break;
+        case SJ_ATOMIC: if (variant & 1) sj_atomic_pod(c, F, reps); else sj_atomic(c, F, reps); break;
         case SJ_PRIMS: sj_prims(c, F, reps); break;
         case SJ_DD: sj_dd(c, F, reps); break;
         case SJ_SOH: sj_soh(c, F, reps); break;
@@ -451,6 +473,7 @@ vh::Register r_soh("RTsoh", spec(false), spec(true), [](const vh::Case& c) { ret
 vh::Register r_dobj("RTdobj", spec(false), spec(true), [](const vh::Case& c) { return run_rt(c, SJ_DOBJ); }, RULE);
 vh::Register r_cow("RTcow", spec(false), spec(true), [](const vh::Case& c) { return run_rt(c, SJ_COW); }, RULE);
 vh::Register r_rcu("RTrcu", spec(false), spec(true), [](const vh::Case& c) { return run_rt(c, SJ_RCU); }, RULE);
+vh::Register r_at("RTatomic", spec(false), spec(true), [](const vh::Case& c) { return run_rt(c, SJ_ATOMIC); }, RULE);
 vh::Register r_tw("RTtw", spec(false), spec(true), [](const vh::Case& c) { return run_rt(c, SJ_TRIPWIRE); }, RULE);
 vh::Register r_lr("RTlr", spec(false), spec(true), [](const vh::Case& c) { return run_rt(c, SJ_LR); }, RULE);
 
